@@ -843,3 +843,65 @@ pub fn mutate_tokens(rng: &mut Rng, src: &str, n: usize) -> String {
     }
     toks.concat()
 }
+
+/// A zoo of syntactically valid (node --check) feature snippets: optional chains, private members,
+/// accessors, labels, for-await, object accessors, delegating generators, logical assignment, BigInt,
+/// regex v-flag, optional catch, new.target, eval, contextual keywords, nested templates, line
+/// continuations, sequences, spreads, prototype call/apply forms, unbraced bodies, switch lexical
+/// declarations, `this` forms, destructuring defaults, unary zoo, labelled continue, tagged member
+/// templates, comments between operands, inner directives, redeclarations, import.meta, HTML comments...
+pub const ZOO: &[&str] = &[
+    r####"function z(a, b) { return super_ok(a) + b; }"####,
+    r####"class Z1 extends Base { m(a, b) { return super.toString().trim() + a; } }"####,
+    r####"function z2(a, b) { return a?.[b]?.trim() + a?.b.c?.(b) + (a?.b)(b); }"####,
+    r####"function z3(a, b) { return tag`x${a + b}`.trim() + String.raw`\n${a}`; }"####,
+    r####"async function z4(a, b) { const m = await import('./dep.js'); return m.default + a; }"####,
+    r####"class Z5 { #p = 'a' + 'b'.trim(); static #q = 1; get #r() { return this.#p + Z5.#q; } m(a) { return this.#r + a; } static { Z5.s = `${Z5.#q}` + 'x'; } }"####,
+    r####"function z6(a, b) { out: { if (a) break out; b += a; } return b; }"####,
+    r####"async function z7(a, b) { for await (const x of a) { b += x; } return b; }"####,
+    r####"function z8(a, b) { const o = { get g() { return a + b; }, set s(v) { a = v + b; }, ['k' + a]: b, m() { return `${a}`; }, async *ag() { yield a + b; } }; return o.g; }"####,
+    r####"function* z9(a, b) { const x = yield* inner(a); return x + (yield a + b); }"####,
+    r####"function z10(a, b) { a **= 2; b ??= 'd' + a; a ||= b + 'x'; b &&= a.concat(b); return a + b; }"####,
+    r####"function z11(a, b) { return 1n + 2n, 1_000 + a, /[\p{L}--[a-z]]/v.test(b) + a; }"####,
+    r####"function z12(a, b) { try { return a + b; } catch { return b + a; } finally { a += b; } }"####,
+    r####"function z13(a, b) { return new.target ? a + b : arguments[0] + arguments.length; }"####,
+    r####"function z14(a, b) { return eval('a + b') + (0, eval)('1') + a; }"####,
+    r####"function z15(a, b) { var let_ = a, async = b; return async + let_ + (async => async + a)(b); }"####,
+    r####"function z16(a, b) { return `a${`b${`c${a + b}`}`}` + `\`${a}\\`; }"####,
+    r####"function z17(a, b) { return "  " + a + '\
+continued' + b; }"####,
+    r####"function z18(a, b) { return a ? b ? a + b : b + a : (a, b) + (a = b, a += b); }"####,
+    r####"function z19(a, b) { return [...a, ...b].concat([a + b]).map((x) => x + a).join('' + b); }"####,
+    r####"function z20(a, b) { return String.prototype.concat.call(...[a, b]) + String.prototype.trim.apply(a, []) + ''.concat.call(a, b); }"####,
+    r####"function z21(a, b) { if (a) b += a; else b += b; while (a--) b += a; do b += a; while (a++ < 1); for (;a < 2; a++) b += a; return b; }"####,
+    r####"function z22(a, b) { switch (a + b) { case a + 'x': let q = a + b; return q; case b: { return b + a; } default: return a; } }"####,
+    r####"function z23(a, b) { return (function () { return this + a; }).call(b) + (() => this + a)() + (async () => a + b)(); }"####,
+    r####"function z24(a, b) { const { x = a + b, ...r } = b, [y = `t${a}`] = a; return x + y + r; }"####,
+    r####"function z25(a, b) { return typeof a + void b + !a + -b + +a + ~b + (a instanceof Object) + (a in b) + delete a.b; }"####,
+    r####"function z26(a, b) { label: for (const k in a) { for (const v of b) { if (v) continue label; a += k + v; } } return a; }"####,
+    r####"class Z27 { static async *[Symbol.asyncIterator]() { yield 'a' + 'b'; } accessor x = 1; static accessor y = 'a' + 'c'; }"####,
+    r####"function z28(a, b) { return a.b.c.trim().concat(b.trim(), a?.trim?.()).substring(1, b.length) + a['trim']() + a.trim`x`; }"####,
+    r####"function z29(a, b) { return a + /* c1 */ b // c2
+ + /** c3 */ a; }"####,
+    r####"function z30(a, b) { "use strict"; return a + b + `${a}${b}`; }"####,
+    r####"function z31(a, b) { var a; function a() {} return a + b; }"####,
+    r####"function z32(a, b) { return (a, b) => { return a + b; }, async function* () { yield* [a + b]; }, class { [a + b]() {} }; }"####,
+    r####"function z33(a, b) { return new (a.b.bind(b, a + b))(...a).c + new a; }"####,
+    r####"function z34(a, b) { debugger; with_ok(a); return a + b; }"####,
+    r####"function z35(a, b) { return import.meta.url + a; }"####,
+    r####"function z36(a, b) { return a <!--b
+ + b; }"####,
+    r####"function z37(a, b) { return a.concat(b).trim().concat(a + b, ...b, `${a}`).trimStart?.().trimEnd() ?? a + b; }"####,
+    r####"function z38(a, b) { x = a + b; y.z += x; y[a + b] += b; ({ p: y.q } = { p: a + b }); [y.r = a + b] = []; return y; }"####,
+    r####"function z39(a, b) { return a + (b + (a + (b + (a + (b + (a + (b + (a + b)))))))); }"####,
+    r####"function z40(a, b) { return `${a}${b}`.concat`${a}` + (a + b)`x`; }"####,
+];
+
+pub fn gen_zoo(rng: &mut Rng, n: usize) -> String {
+    let mut s = String::from("function fn0(x) { return x; }\nfunction super_ok(x) { return x; }\nfunction with_ok(x) { return x; }\nfunction* inner(a) { return a; }\nfunction tag(s, ...v) { return s.raw.join(''); }\nclass Base { constructor() { this.v = 'base'; } }\nvar x, y = {};\n");
+    for _ in 0..n {
+        s.push_str(*rng.pick(ZOO));
+        s.push('\n');
+    }
+    s
+}
